@@ -114,7 +114,7 @@ inductive Ev where
 /-- mirrors the `NoiseComplete` body arm of do_read_event after decrypt_message (wire::read and its
     error table), handle_message (Init gate) and the Ping / Pong arms of
     do_handle_message_without_peer_lock.  A decode failure is acted on BEFORE the Init gate. -/
-def nodeStep (classify : Nat → Kind) (initOk : Bytes → Bool) (other : Bytes → Decoded) (g : Gate)
+def nodeStep (classify : Nat → PeerGate.MK) (initOk : Bytes → Bool) (other : Bytes → Decoded) (g : Gate)
     (m : Bytes) : Gate × List Ev :=
   match decode other m with
   | .fatal => (g, [.disc])
@@ -135,10 +135,11 @@ def nodeStep (classify : Nat → Kind) (initOk : Bytes → Bool) (other : Bytes 
       match gateStep classify initOk g m with
       | (g1, .disconnect) => (g1, [.disc])
       | (g1, .passUp x) => (g1, [.up x])
+      | (g1, .passUpDisc x) => (g1, [.up x, .disc])
       | (g1, _) => (g1, [])
 
 /-- the node's reaction to the decrypted message sequence; nothing is processed after a drop -/
-def nodeRun (classify : Nat → Kind) (initOk : Bytes → Bool) (other : Bytes → Decoded) (g : Gate) :
+def nodeRun (classify : Nat → PeerGate.MK) (initOk : Bytes → Bool) (other : Bytes → Decoded) (g : Gate) :
     List Bytes → List Ev
   | [] => []
   | m :: ms =>
